@@ -14,7 +14,7 @@ TOL = 1e-4          # p.u. / MVA / % (OPF family tolerance, DESIGN 2.5)
 # per-unit impedances of the base nets (sn_mva = 1) amplify to <= 8e-4 MVA in the flows
 TOL_FLOW_ABS, TOL_FLOW_REL = 2e-3, 1e-4
 META = {
-    "text": "Every OPF problem obtained from 3 base nets (thorough 4) by adding <=2 (thorough <=3) elements from a menu of controllable and fixed gen/sgen/load/storage/dcline/ext_grid variants with wide, tight and degenerate limits, crossed with 3 (thorough 6) bus-voltage-limit alphabets, 2 (3) branch-limit alphabets, 2 linear cost sets and AC/DC OPF, is solved by the real runopp/rundcopp; on every converged result each declared limit, each fixed set-point and the dc line loss law are checked and a plain runpp/rundcpp with the reported dispatch as set-points must reproduce bus voltages and branch flows.",
+    "text": "Every OPF problem obtained from 3 base nets (thorough 4) by adding <=2 (thorough <=3) elements from a menu of controllable and fixed gen/sgen/load/storage/dcline/ext_grid variants with wide, tight and degenerate limits, crossed with 3 (thorough 4, on R3 6) bus-voltage-limit alphabets, 2 (on R3 3) branch-limit alphabets, 2 linear cost sets and AC/DC OPF, is solved by the real runopp/rundcopp; on every converged result each declared limit, each fixed set-point and the dc line loss law are checked and a plain runpp/rundcpp with the reported dispatch as set-points must reproduce bus voltages and branch flows.",
     "note": "Trusted: pandapower's own runpp/rundcpp as the replica solver, the limit bookkeeping in checks/C16.py. Tolerance 1e-4 (p.u./MVA/%). Non-converged OPFs are counted, not judged. Values outside the finite alphabets and nets beyond 4 buses are not covered.",
     "technique": "bounded exhaustive input enumeration (element subsets x limit alphabets x options) on the real OPF with constraint and power-flow-replica oracles",
     "design_ref": "DESIGN.md §3 E1, §4 C16",
@@ -304,8 +304,8 @@ def gen_cases(tier):
     from mc import netalpha as na
     cases = []
     bases = ["R3", "T3", "M4"]
-    vl = ["wide", "mixed", "mixed0"] if tier == "quick" else ["wide", "mixed", "mixed0", "tight", "nan", "none"]
-    bl = ["none", "bind"] if tier == "quick" else ["none", "bind", "bind1"]
+    vl = ["wide", "mixed", "mixed0"] if tier == "quick" else ["wide", "mixed", "mixed0", "tight"]
+    bl = ["none", "bind"]
 
     def product(b, elems, vls, bls, css):
         for v in vls:
@@ -317,14 +317,17 @@ def gen_cases(tier):
     for b in bases:
         menu = elem_menu(b, tier)
         for devs in na.subsets(menu, 2, compatible=_compatible):
-            product(b, [list(d) for d in devs], vl, bl, ("A", "B"))
+            elems = [list(d) for d in devs]
+            product(b, elems, vl, bl, ("A", "B"))
+            if tier == "thorough" and b == "R3":
+                # missing / NaN voltage limits (documented defaults) and a single limited branch
+                product(b, elems, ("nan", "none"), ("none", "bind1"), ("A", "B"))
     if tier == "thorough":
-        # k = 3 on the two bases with fused hot buses, reduced option product
-        for b in ("R3", "T3"):
-            menu = elem_menu(b, tier)
-            for devs in na.subsets(menu, 3, compatible=_compatible):
-                if len(devs) == 3:
-                    product(b, [list(d) for d in devs], ("wide", "mixed0"), ("none", "bind"), ("B",))
+        # k = 3 on the radial base with fused hot buses, reduced option product
+        menu = elem_menu("R3", tier)
+        for devs in na.subsets(menu, 3, compatible=_compatible):
+            if len(devs) == 3:
+                product("R3", [list(d) for d in devs], ("wide", "mixed0"), ("none",), ("B",))
     # collision of gen-level voltage limits (create_gen min_vm_pu / max_vm_pu) with bus limits, two gens on different
     # buses: build_gen._check_gen_vm_limits masks one gen's limits with the other gen's comparison result
     gv = {"out": (0.8, 1.2), "in": (1.004, 1.04), "lo_out": (0.8, 1.04), "hi_out": (1.004, 1.2)}
@@ -357,7 +360,7 @@ def explore(tier, seed):
     rep = core.Report(PROPERTY, LEVEL, tier, seed)
     core.warm(pf=True, dc=True, opf=True)
     cases = gen_cases(tier)
-    rep.rule = ("E1: every subset of <=%d (k=3: bases R3/T3 with a reduced option product) elements of the controllable/fixed element menu (gen, sgen, load, storage, dcline, "
+    rep.rule = ("E1: every subset of <=%d (k=3: base R3 with a reduced option product) elements of the controllable/fixed element menu (gen, sgen, load, storage, dcline, "
                 "ext_grid variants with wide/tight/degenerate limits) on bases R3, T3, M4, crossed with the bus-voltage-limit "
                 "alphabet, the branch-limit alphabet, two linear cost sets and {runopp, rundcopp}; a case is distinct+non-trivial "
                 "when the OPF converged, keyed by (base, mode, set of active constraint classes, case hash)" % (2 if tier == "quick" else 3))
